@@ -154,6 +154,7 @@ func (r *Run) classify(e *Exch, by map[int]*OResp) *cls {
 			// validated in this exchange: age restarts from the 304; not needed by rules on unvalidated reuse
 			hv = c.H
 		}
+		dateFor := ""
 		if hv != nil {
 			// the Age field stored with the response: the one of the last 304 if it carried one, else whatever an
 			// earlier link of the chain (the response itself or an earlier 304) left in the stored header fields
@@ -180,7 +181,7 @@ func (r *Run) classify(e *Exch, by map[int]*OResp) *cls {
 			}
 			// the Date the age is reckoned from: the one the header provenance carried, or - if it had none that can
 			// be used - the time it was received (RFC 9110 §6.6.1), whatever the served copy now shows
-			dateFor := hv.Header.Get("Date")
+			dateFor = hv.Header.Get("Date")
 			if _, ok := parseDate(dateFor); !ok {
 				dateFor = r.httpTime(hv.TResp)
 			}
@@ -200,10 +201,16 @@ func (r *Run) classify(e *Exch, by map[int]*OResp) *cls {
 		}
 		st := e.Status
 		lh := e.Header
+		if dateFor != "" && lh.Get("Date") != dateFor {
+			// "Expires minus Date" is reckoned with the Date the origin sent (or the time of receipt if it sent
+			// none that can be used), whatever the served copy shows
+			lh = e.Header.Clone()
+			lh.Set("Date", dateFor)
+		}
 		if v, ok := parseCC(e.Header)["no-cache"]; ok && v != "" && c.B != nil {
 			// fields named by a qualified no-cache are withheld from the caller but still stored: freshness is
 			// a matter of the stored header fields
-			lh = e.Header.Clone()
+			lh = lh.Clone()
 			eff, _ := r.effectiveStored(c.B, e.SeqInv)
 			for _, f := range strings.Split(v, ",") {
 				f = http.CanonicalHeaderKey(strings.TrimSpace(f))
@@ -1157,6 +1164,32 @@ func (r *Run) chainExact(B *OResp, e *Exch) bool {
 	return true
 }
 
+// mergedElsewhere: some store write carries the 304's marker next to another body's, and none next to B's.
+func (r *Run) mergedElsewhere(o, B *OResp) bool {
+	with, without := false, false
+	for _, s := range r.Store {
+		if s.Kind != "set" || s.IsIndex {
+			continue
+		}
+		hasO, hasB := false, false
+		for _, x := range s.SIDs {
+			if x == o.SID {
+				hasO = true
+			}
+			if x == B.SID {
+				hasB = true
+			}
+		}
+		if hasO && hasB {
+			with = true
+		}
+		if hasO && !hasB {
+			without = true
+		}
+	}
+	return without && !with
+}
+
 // clientConditionalSince: did a client send its own conditional request for B's resource (and get a
 // 304) after B was obtained? What such a 304 means for the stored response is not settled by the
 // statements, so history-derived expectations about the stored state are not made then.
@@ -1188,6 +1221,9 @@ func (r *Run) validationChain(B *OResp, before uint64) (hdr http.Header, last *O
 		}
 		if stable && classKey(vary, o.Req.Header) != classKey(vary, B.Req.Header) {
 			continue
+		}
+		if !stable && r.mergedElsewhere(o, B) {
+			continue // the store shows this 304 written into the entry of another response of the resource
 		}
 		inm, ims := o.Req.Header.Get("If-None-Match"), o.Req.Header.Get("If-Modified-Since")
 		if (et == "" && lm == "") || inm != et || ims != lm {
@@ -1305,11 +1341,25 @@ func judgeSWR(r *Run, j *Judged, c *cls) {
 		j.fail("C20", "foreground-waited", e, "", "stale-while-revalidate response took %s of virtual time (store budget %s): the foreground waited", e.TRet-e.TInv, budget)
 	}
 	j.count("C20", "revalidation-count")
+	if len(c.bg) == 0 {
+		// the background goroutine loads its own copy of the entry first; if the entry has been invalidated (or
+		// the read failed) in the meantime there is nothing left to revalidate
+		for _, s := range e.Store {
+			if !s.Fg && s.Kind == "get" && !s.IsIndex && (s.Err != "" || s.Fault != "") {
+				return
+			}
+		}
+	}
 	if len(c.bg) != 1 {
 		j.fail("C20", "revalidation-count", e, strconv.Itoa(len(c.bg)), "stale response sid=%d served under stale-while-revalidate with %d background revalidation requests (want exactly 1)", c.B.SID, len(c.bg))
 		return
 	}
 	u := c.bg[0]
+	// "... for it": the background request is this exchange's request plus validators, whatever the caller does
+	// with its own request value after the response was returned
+	if rest, want := reqWithout(u.Req.Header, "If-None-Match", "If-Modified-Since"), reqWithout(e.Req.Header, "If-None-Match", "If-Modified-Since"); !reflect.DeepEqual(rest, want) || u.Req.URL != e.Req.URL || u.Req.Method != e.Req.Method {
+		j.fail("C20", "revalidation-count", e, "other-request", "the background revalidation is not for the request that was answered: sent %s %s %v, the caller's request was %s %s %v", u.Req.Method, u.Req.URL, rest, e.Req.Method, e.Req.URL, want)
+	}
 	// the validators as stored (a qualified no-cache may have stripped them from what the caller was given)
 	sh, _ := r.effectiveStored(c.B, e.SeqInv)
 	et, lm := sh.Get("Etag"), sh.Get("Last-Modified")
